@@ -72,6 +72,13 @@ RECURSIVE FullAt(_)    \* every operator application parenthesised: not (@a), (@
 FullAt(x) == CASE x.op = "lit" -> <<"@">> \o x.name
                [] x.op = "not" -> <<"n","o","t"," ">> \o Paren(FullAt(x.kids[1]))
                [] OTHER -> Paren(FullAt(x.kids[1]) \o Sp \o Chars(Tok(x.op)) \o Sp \o FullAt(x.kids[2]))
+RECURSIVE LeafyAt(_)   \* TagExpr's Leafy with '@': every operand in parentheses of its own, (@a) or (@b)
+LeafyAt(x) == CASE x.op = "lit" -> Paren(<<"@">> \o x.name)
+                [] x.op = "not" -> <<"n","o","t"," ">> \o (IF x.kids[1].op \in {"lit", "not"} THEN LeafyAt(x.kids[1]) ELSE Paren(LeafyAt(x.kids[1])))
+                [] OTHER -> LET l == x.kids[1]  r == x.kids[2]
+                                ls == IF Prec(l.op) < Prec(x.op) THEN Paren(LeafyAt(l)) ELSE LeafyAt(l)
+                                rs == IF Prec(r.op) <= Prec(x.op) THEN Paren(LeafyAt(r)) ELSE LeafyAt(r)
+                            IN ls \o Sp \o Chars(Tok(x.op)) \o Sp \o rs
 RECURSIVE MinAt(_)     \* minimal parentheses: (@a or @b) and not @x-y
 MinAt(x) == CASE x.op = "lit" -> <<"@">> \o x.name
               [] x.op = "not" -> <<"n","o","t"," ">> \o (IF x.kids[1].op \in {"lit", "not"} THEN MinAt(x.kids[1]) ELSE Paren(MinAt(x.kids[1])))
@@ -82,7 +89,10 @@ MinAt(x) == CASE x.op = "lit" -> <<"@">> \o x.name
 Bucket(x) == (Len(Min(x)) + 3 * Len(Full(x))) % NB
 V2Inputs(x) == {TextIn(Min(x)), TextIn(Full(x)), TextIn(WithAt(x)),
                 ListIn(<<Min(x)>>), ListIn(<<Full(x), <<"@", "b">> >>), ListIn(<<<<"a">>, Min(x)>>),
-                TextIn(FullAt(x)), TextIn(MinAt(x)), ListIn(<<FullAt(x), MinAt(x)>>)}
+                TextIn(FullAt(x)), TextIn(MinAt(x)), ListIn(<<FullAt(x), MinAt(x)>>),
+                \* parts that start with "(" and end with ")" without being enclosed by one matching pair: (a) or (b)
+                TextIn(Leafy(x)), ListIn(<<Leafy(x), <<"@", "b">> >>), ListIn(<<<<"a">>, LeafyAt(x)>>),
+                ListIn(<<LeafyAt(x), Leafy(x)>>)}
 
 \* ---------------------------------------------------------------- histories of Configuration constructions
 HProtos == {"v1", "v2", "strict", "auto_detect", "default"}
@@ -128,6 +138,11 @@ AutoOnV2 == OnV2(\A in \in V2Inputs(t) : V2Parsed(in).ok /\ (IsPureV2(in) => (Au
 \* the '@' decoration never changes the v2 meaning, wherever it stands
 AtNeutral == OnV2(LET want == V2Run(TextIn(Full(t)), SS) IN
                   want.exc = "" /\ V2Run(TextIn(FullAt(t)), SS) = want /\ V2Run(TextIn(MinAt(t)), SS) = want)
+\* the list form is the conjunction of its parts, whatever their top-level operator and outermost characters
+ListIsConjunction ==
+   OnV2(\A in \in V2Inputs(t) : (in.form = "list" /\ Len(in.terms) = 2) =>
+           LET r == V2Run(in, SS)  r1 == V2Run(TextIn(in.terms[1]), SS)  r2 == V2Run(TextIn(in.terms[2]), SS) IN
+           r.exc = "" /\ r1.exc = "" /\ r2.exc = "" /\ \A k \in DOMAIN SS : r.tt[k] = (r1.tt[k] /\ r2.tt[k]))
 \* the result of a construction depends only on its own arguments, whatever the process has constructed before
 HistoryIndependent ==
    ph = "hist" => /\ h.cur = Eff(h.cons[Len(h.cons)].proto)
@@ -158,7 +173,7 @@ Emit == /\ OnCnf(Hash(f) % EmitMod = 0 =>
                                           mixed |-> IF HasNeg(f) THEN [s \in 1..2 |-> MixedInputs(f, IF s = 1 THEN 1 ELSE 4)]
                                                     ELSE <<>>])>>))
         /\ OnV2(PrintT(<<"CASE", ToJson([kind |-> "v2", min |-> Min(t), full |-> Full(t), at |-> WithAt(t),
-                                         fullat |-> FullAt(t), minat |-> MinAt(t),
+                                         fullat |-> FullAt(t), minat |-> MinAt(t), leafy |-> Leafy(t), leafyat |-> LeafyAt(t),
                                          tt |-> V2Run(TextIn(Min(t)), SS).tt])>>))
         /\ (ph = "hist" /\ Len(h.cons) = HistLen) =>
               PrintT(<<"CASE", ToJson([kind |-> "hist", cons |-> [k \in DOMAIN h.cons |->
